@@ -260,6 +260,7 @@ func TestCQRSDispatch(t *testing.T) {
 		var failNow map[int]bool
 		var curEqual func(received any) bool // set per item: compares with the value that was sent
 		arrivedName := ""                    // set per item: the name the message carried when it was delivered
+		curErr := errHandler                 // set per item: what a failing handler returns
 		relabelTo := ""                      // set per item: handlers write this name into the message they were given
 		mkFn := func(idx int) func(ctx context.Context, v any) error {
 			return func(ctx context.Context, v any) error {
@@ -271,7 +272,7 @@ func TestCQRSDispatch(t *testing.T) {
 					o.Metadata["name"] = relabelTo
 				}
 				if failNow[idx] {
-					return errHandler
+					return curErr
 				}
 				return nil
 			}
@@ -578,6 +579,8 @@ func TestCQRSDispatch(t *testing.T) {
 				sentV, sentTi := v, ti
 				curEqual = func(received any) bool { return sentTi.equal(sentV, received) }
 			}
+			// a handler's failure is a failure whatever it wraps (a downstream call that was cancelled or timed out)
+			curErr = rapid.SampledFrom([]error{errHandler, errHandler, fmt.Errorf("handler gave up: %w", context.Canceled), fmt.Errorf("downstream call: %w", context.DeadlineExceeded)}).Draw(t, "handlerError")
 			relabelTo = ""
 			if rapid.IntRange(0, 3).Draw(t, "handlersRelabelTheMessageTheyWereShown") == 0 {
 				relabelTo = marshaler.Name(fam[(it.Type+1+rapid.IntRange(0, 1).Draw(t, "relabelTo"))%3].zero())
@@ -623,6 +626,14 @@ func TestCQRSDispatch(t *testing.T) {
 				t.Fatalf("violation: OnHandle ran %d times for %d handler invocations; problems %v\n%s", hookCalls, len(wantInvoked), hookProblems, desc)
 			}
 			canon += fmt.Sprintf("%d.%d.%d.%v;", it.Kind, it.Type, it.Target, it.Fail)
+		}
+		// what the bus published stays what it was, however many values were sent afterwards
+		for _, pc := range busPub.Calls() {
+			for k, pm := range pc.Msgs {
+				if now := lib.SnapOf(pm); !now.Equal(pc.Snaps[k]) {
+					t.Fatalf("violation: the message the bus published in call %d was %+v when it was published and is %+v after later sends (proto=%v)", pc.N, pc.Snaps[k], now, useProto)
+				}
+			}
 		}
 		lib.Case(canon, interesting, "cqrs:"+kind, fmt.Sprintf("proto=%v", useProto))
 		if interesting {
